@@ -869,7 +869,7 @@ public:
 			space->operator = (static_cast<const identifier &>(*pos));
 			space->set_instance(pos->detach());
 #endif
-			pos->~item<T>();
+			/* source element stays valid: finalized by set_length() */
 			++space;
 		}
 		if (!space) {
